@@ -10,16 +10,26 @@ RUNNER = "run_c13"
 HARNESS_BIN = "c13"
 RELEASE_ALWAYS = True     # unchecked reads + u8 arithmetic: debug (overflow/debug asserts) and release
 RULE = ("raw option areas through TcpOptionsIterator::from_slice: ALL byte strings of length 0..2 (65 793) on every run, "
-        "length 3 over an alphabet of interesting bytes (kinds, allowed sizes and their neighbours; 12 letters quick, 24 thorough; thorough also 24 x all 256 size bytes x 24, and length 4 over 12 letters), "
+        "length 3: every first byte (256) x an alphabet of interesting bytes squared (kinds, allowed sizes and their neighbours, extremes; "
+        "12 letters quick = 36 864 areas; thorough 64 letters = 1 048 576 areas, plus 24 x all 256 size bytes x 24), "
+        "length 4 over 20 letters in thorough (160 000), "
         "structured random areas up to 60 bytes built from valid options, END, truncated options, wrong size bytes, unknown kinds, "
         "every prefix of a few full-length areas; the same areas through TcpOptions::try_from_slice / TcpHeader::set_options_raw "
         "(lengths 0..44); element lists of all six kinds with 0..3 extra SACK blocks (all 8 Some/None masks), extreme values, "
         "required lengths dense around 40, through try_from_elements / TcpHeader::set_options / to_bytes / TcpHeaderSlice. "
+        "header level (hdr): a TcpHeader with random / extreme field values and flags, then 1..4 operations set_options(elements) / "
+        "set_options_raw(bytes) in sequence (grow, shrink, reject in between; ALL pairs of raw lengths 0..44 x 0..44 with non-zero bytes; "
+        "element lists with required length dense around 40), after every operation the header, its to_bytes, and to_bytes + payload "
+        "through TcpHeaderSlice, TcpSlice, TcpHeader::from_slice and read; wire level (wire): arbitrary TCP header bytes with every "
+        "data offset 0..15, random reserved bits, structured / malformed option areas, payload behind, cut at every boundary, through "
+        "the same four readers. "
         "non-trivial = at least two yielded items, or an error/END after at least one element; distinct = distinct case lines")
 ASSUMPTIONS = ["64-bit usize; element lists hold fewer than 2^64/34 elements (required_len does not wrap)"]
 PROJECTION = ("every yielded item with all fields, rest() offset+length after every call, rest() after the first None and "
-              "after two further calls, error fields, encoded bytes, len(), data_offset(), agreement of the TcpHeader / "
-              "TcpHeaderSlice views")
+              "after two further calls, error fields, encoded bytes, len(), data_offset(); header level: result of every "
+              "set_options / set_options_raw, data_offset(), header_len(), options area, to_bytes() byte for byte, windows "
+              "(offset+length) of TcpHeaderSlice::slice / options, TcpSlice::header_slice / payload / options, rest of from_slice, "
+              "reader position of read, decoded header == original, and the full iteration of all four option iterators")
 
 ALLOWED = {2: [4], 3: [3], 4: [2], 5: [10, 18, 26, 34], 8: [10]}
 U32 = 0xFFFFFFFF
@@ -164,12 +174,148 @@ def check_iter(area, toks):
     return None
 
 
+
+# ---- header level -------------------------------------------------------------
+
+def parse_seg(seg):
+    """'res k=v k[ t t ] ...' -> (res, {k: v or [tokens]}); None if malformed"""
+    toks = seg.split()
+    if not toks:
+        return None
+    d = {}
+    i = 1
+    while i < len(toks):
+        t = toks[i]
+        if t.endswith("["):
+            try:
+                j = toks.index("]", i)
+            except ValueError:
+                return None
+            d[t[:-1]] = toks[i + 1:j]
+            i = j + 1
+        elif "=" in t:
+            k, v = t.split("=", 1)
+            d[k] = v
+            i += 1
+        else:
+            return None
+    return toks[0], d
+
+
+def fixed20(f, doff):
+    """RFC 9293 3.1: the 20 fixed octets (f = sp dp seq ack flags win csum urg; flags bit0 = NS/reserved bit 0)"""
+    sp, dp, seq, ack, flags, win, csum, urg = f
+    return (be(sp, 2) + be(dp, 2) + be(seq, 4) + be(ack, 4) + bytes([(doff << 4) | (flags & 1), (flags >> 1) & 0xFF])
+            + be(win, 2) + be(csum, 2) + be(urg, 2))
+
+
+def views_expect(hl, doff, narea, total, area_txt, it_txt, with_eq):
+    """what the four readers must print for a buffer of `total` bytes whose header is hl bytes long"""
+    s = ("hs=0+%d hsdo=%d hsopt=20+%d:%s hsit[ %s ] ts=%d tsdo=%d tshs=0+%d tspl=%d+%d tsopt=20+%d:= tsit[ = ] "
+         "fs=%d+%d fshl=%d fsdo=%d fsopt== fsit[ = ]" % (hl, doff, narea, area_txt, it_txt, hl, doff, hl, hl, total - hl, narea,
+                                                         hl, total - hl, hl, doff))
+    if with_eq:
+        s += " fseq=eq"
+    return s + " rd=%d rdopt== rdeq=eq" % hl
+
+
+def first_diff(a, b):
+    ta, tb = a.split(), b.split()
+    for i in range(max(len(ta), len(tb))):
+        x = ta[i] if i < len(ta) else "<nothing>"
+        y = tb[i] if i < len(tb) else "<nothing>"
+        if x != y:
+            return "token %d: got '%s', expected '%s'" % (i, x[:120], y[:120])
+    return "same tokens, different spacing"
+
+
+def oracle_hdr(case, line):
+    segs = case.split(" / ")
+    f = segs[0].split()
+    fields = [int(x) for x in f[1:9]]
+    payload = b"" if f[9] == "-" else bytes.fromhex(f[9])
+    outs = line.split(" ; ")
+    if len(outs) != len(segs) - 1:
+        return "%d operations but %d results" % (len(segs) - 1, len(outs))
+    cur = b""                                   # TcpHeader::new: no options
+    for k, (op, out) in enumerate(zip(segs[1:], outs)):
+        p = op.split()
+        if p[0] == "raw":
+            content = b"" if p[1] == "-" else bytes.fromhex(p[1])
+            required = len(content)
+            want_items = None
+        else:
+            els = [parse_el(t) for t in p[1:]]
+            content = b"".join(py_wire(e) for e in els)
+            required = len(content)
+            want_items = [el_tok(compact(e)) for e in els]
+        if required > 40:
+            res = "err:nes=%d" % required      # rejected: the header keeps its options
+            want_items = None
+        else:
+            res = "ok"
+            cur = content + bytes(pad4(required) - required)
+        ps = parse_seg(out)
+        if ps is None or "hit" not in ps[1]:
+            return "op %d: unparsable result %s" % (k, out[:120])
+        if ps[0] != res:
+            return "op %d (%s) needs %d bytes: expected result %s, got %s" % (k, op[:60], required, res, ps[0])
+        hit = ps[1]["hit"]
+        r = check_iter(cur, hit)
+        if r:
+            return "op %d (%s): TcpHeader::options_iterator: %s" % (k, op[:60], r)
+        if want_items is not None:
+            got = [t.rsplit("@", 1)[0] for t in hit if "@" in t and not t.startswith(("end@", "last@"))]
+            if got != want_items:
+                return "op %d: options_iterator yields %s, expected the (compacted) elements %s" % (k, got, want_items)
+        doff = 5 + len(cur) // 4
+        hl = 20 + len(cur)
+        wire = fixed20(fields, doff) + cur
+        exp = "%s do=%d hl=%d area=%s hit[ %s ] bytes=%s %s" % (
+            res, doff, hl, hx(cur), " ".join(hit), hx(wire),
+            views_expect(hl, doff, len(cur), hl + len(payload), "=", "=", True))
+        if out != exp:
+            return "op %d (%s) after %s: %s" % (k, op[:60], "; ".join(segs[1:k + 1])[:80] or "-", first_diff(out, exp))
+    return None
+
+
+def oracle_wire(case, line):
+    h = case.split()[1]
+    bs = b"" if h == "-" else bytes.fromhex(h)
+    if len(bs) < 20:
+        exp = "hs=ERR:len ts=ERR:len fs=ERR:len rd=ERR:io"
+    else:
+        doff = bs[12] >> 4
+        if doff < 5:
+            exp = "hs=ERR:doff:%d ts=ERR:doff:%d fs=ERR:doff:%d rd=ERR:doff:%d" % (doff, doff, doff, doff)
+        elif len(bs) < doff * 4:
+            exp = "hs=ERR:len ts=ERR:len fs=ERR:len rd=ERR:io"
+        else:
+            hl = doff * 4
+            area = bs[20:hl]
+            ps = parse_seg("x " + line)
+            if ps is None or "hsit" not in ps[1]:
+                return "valid header (data offset %d, %d bytes) but: %s" % (doff, len(bs), line[:120])
+            it = ps[1]["hsit"]
+            r = check_iter(area, it)
+            if r:
+                return "TcpHeaderSlice::options_iterator: " + r
+            exp = views_expect(hl, doff, len(area), len(bs), hx(area), " ".join(it), False)
+    if line != exp:
+        return first_diff(line, exp)
+    return None
+
+
 def oracle(case, line):
     """C13 relations between the input and the implementation's answer"""
     if line.startswith(("PANIC", "CRASH", "NOT-RUN", "MIXED")):
         return line
     parts = case.split()
     toks = line.split()
+    if parts[0] == "hdr":
+        return oracle_hdr(case, line)
+    if parts[0] == "wire":
+        return oracle_wire(case, line)
     if parts[0] == "raw":
         area = b"" if parts[1] == "-" else bytes.fromhex(parts[1])
         return check_iter(area, toks)
@@ -315,8 +461,84 @@ def _area(rng, maxlen=60):
     return bytes(out[:maxlen])
 
 
+def _nonzero(rng, n):
+    """n bytes, none of them 0 (so that stale bytes would be visible)"""
+    return bytes(rng.range(1, 255) for _ in range(n))
+
+
+def _field(rng, bits):
+    k = rng.below(5)
+    top = (1 << bits) - 1
+    if k == 0:
+        return 0
+    if k == 1:
+        return top
+    if k == 2:
+        return 1 << rng.below(bits)
+    return rng.next() & top
+
+
+def _hdr_prefix(rng):
+    pl = rng.bytes(rng.below(7)) if rng.chance(3, 4) else b""
+    return "hdr %d %d %d %d %d %d %d %d %s" % (_field(rng, 16), _field(rng, 16), _field(rng, 32), _field(rng, 32),
+                                               rng.below(512), _field(rng, 16), _field(rng, 16), _field(rng, 16), hx(pl))
+
+
+def _els_of_len(rng, target):
+    """element list whose encoding needs exactly `target` bytes"""
+    els = []
+    tot = 0
+    while True:
+        e = _element(rng)
+        if tot + _size(e) > target:
+            break
+        els.append(e)
+        tot += _size(e)
+    els += [("N",)] * (target - tot)
+    for i in range(len(els) - 1, 0, -1):
+        j = rng.below(i + 1)
+        els[i], els[j] = els[j], els[i]
+    return els
+
+
+def _hdr_op(rng):
+    k = rng.below(10)
+    if k < 4:       # free element list
+        n = rng.below(7) if rng.chance(4, 5) else rng.below(14)
+        els = [_element(rng) for _ in range(n)]
+        return "els " + " ".join(el_tok(e) for e in els) if els else "els"
+    if k < 6:       # element list near the limit
+        return ("els " + " ".join(el_tok(e) for e in _els_of_len(rng, rng.range(33, 44)))).strip()
+    if k < 8:       # raw structured area
+        return "raw " + hx(_area(rng, 44))
+    if k == 8:      # raw, exact length, non-zero
+        return "raw " + hx(_nonzero(rng, rng.below(45)))
+    return "raw " + hx(rng.bytes(rng.below(45)))
+
+
+def _wire(rng, doff):
+    """20 fixed bytes with the given data offset (reserved bits random), option area, payload"""
+    fixed = bytearray(rng.bytes(20))
+    fixed[12] = (doff << 4) | rng.below(16)
+    n = max(0, (doff - 5) * 4)
+    k = rng.below(4)
+    if k == 0:
+        area = rng.bytes(n)
+    else:
+        a = _area(rng, 40)
+        area = (a + (bytes(n) if k == 1 else rng.bytes(n)))[:n]
+    payload = rng.bytes(rng.below(9)) if rng.chance(2, 3) else b""
+    return bytes(fixed) + area + payload
+
+
 ALPHA_QUICK = [0, 1, 2, 3, 4, 5, 8, 10, 9, 6, 18, 255]
 ALPHA_THOROUGH = [0, 1, 2, 3, 4, 5, 6, 7, 8, 9, 10, 11, 17, 18, 19, 26, 27, 33, 34, 35, 40, 127, 128, 255]
+# 64 letters: 0..44 (every kind byte 0,1,2,3,4,5,8 and its neighbours, every allowed size 2,3,4,10,18,26,34 with both
+# neighbours, every length an option area can have and 41..44) and extreme / bit-pattern values
+ALPHA64 = list(range(45)) + [45, 48, 60, 63, 64, 65, 69, 96, 127, 128, 129, 160, 192, 224, 240, 252, 253, 254, 255]
+# 20 letters for length 4: all kinds, all allowed sizes, off-by-one sizes, extremes
+ALPHA20 = [0, 1, 2, 3, 4, 5, 6, 7, 8, 9, 10, 11, 18, 26, 34, 35, 127, 128, 254, 255]
+assert len(set(ALPHA64)) == 64 and len(set(ALPHA20)) == 20
 
 
 def corpus():
@@ -346,6 +568,20 @@ def corpus():
         "els T:1-2 T:3-4 T:5-6 T:7-8 N",
         "els S:1-2,3-4,5-6,7-8 M:1 N N",
         "els S:1-2,3-4,5-6,7-8 M:1 N N N",
+        # header level: fill all 40 bytes with 0xff, shrink, reject (header unchanged), raw
+        "hdr 1234 80 287454020 4294967295 293 4321 65535 0 aabbcc / raw " + "ff" * 40
+        + " / els M:1460 W:7 / els T:1-2 T:3-4 T:5-6 T:7-8 N / raw 0101",
+        "hdr 1 2 3 4 0 5 6 7 - / els",
+        "hdr 65535 65535 4294967295 4294967295 511 65535 65535 65535 00 / els S:1-2,3-4,5-6,7-8 M:1 N N / els N / raw " + "01" * 41 + " / raw -",
+        "hdr 0 0 0 0 1 0 0 0 - / raw " + "ee" * 37 + " / raw 05 / els",
+        # wire level: data offset 15 with unknown option + payload; data offset 4; exact; short by one
+        "wire 000100020000000300000004f002000500060007080a0000000100000002010109040000" + "00" * 22 + "aabbcc",
+        "wire 0001000200000003000000044002000500060007",
+        "wire 0001000200000003000000045e02000500060007",
+        "wire 000100020000000300000004600200050006000701010100",
+        "wire 0001000200000003000000046002000500060007010101",
+        "wire 00",
+        "wire -",
     ]
 
 
@@ -360,16 +596,17 @@ def gen_cases(rng, tier):
         for b in range(256):
             cases.append("raw %02x%02x" % (a, b))
     # 2. length 3 (and 4 in thorough) over the alphabet of interesting bytes
-    alpha = ALPHA_THOROUGH if big else ALPHA_QUICK
-    for a in alpha:
+    #    every first byte x alphabet x alphabet
+    alpha = ALPHA64 if big else ALPHA_QUICK
+    for a in range(256):
         for b in alpha:
             for c in alpha:
                 cases.append("raw %02x%02x%02x" % (a, b, c))
     if big:
-        for a in ALPHA_QUICK:
-            for b in ALPHA_QUICK:
-                for c in ALPHA_QUICK:
-                    for d in ALPHA_QUICK:
+        for a in ALPHA20:
+            for b in ALPHA20:
+                for c in ALPHA20:
+                    for d in ALPHA20:
                         cases.append("raw %02x%02x%02x%02x" % (a, b, c, d))
         # kind from the alphabet, EVERY size byte, third byte from the alphabet
         for a in ALPHA_THOROUGH:
@@ -439,6 +676,29 @@ def gen_cases(rng, tier):
     for n in (41, 64, 100, 300):
         cases.append(_els_case([("N",)] * n))
         cases.append(_els_case([_element(rng) for _ in range(n)]))
+    # 7. header level: a header, then set_options / set_options_raw one after the other
+    #    ALL pairs of raw lengths (grow / shrink / reject second / reject first), non-zero bytes
+    for n1 in range(45):
+        for n2 in range(45):
+            cases.append("%s / raw %s / raw %s" % (_hdr_prefix(rng), hx(_nonzero(rng, n1)), hx(_nonzero(rng, n2))))
+    #    element lists with a required length dense around the limit, before / after something else
+    for target in range(30, 46):
+        for _ in range(60 if big else 8):
+            ops = [_hdr_op(rng), "els " + " ".join(el_tok(e) for e in _els_of_len(rng, target)), _hdr_op(rng)]
+            cases.append(_hdr_prefix(rng) + " / " + " / ".join(ops[rng.below(2):]))
+    for _ in range(60000 if big else 5000):
+        cases.append(_hdr_prefix(rng) + " / " + " / ".join(_hdr_op(rng) for _ in range(rng.range(1, 4))))
+    # 8. wire level: arbitrary header bytes through the four readers
+    for doff in range(16):
+        for cut in (0, 1, 12, 13, 19, 20, 21, doff * 4 - 1, doff * 4, doff * 4 + 1, 59, 60, 61, 64, 70):
+            if cut >= 0:
+                for _ in range(3):
+                    cases.append("wire " + hx(_wire(rng, doff)[:cut]))
+    for _ in range(80000 if big else 8000):
+        w = _wire(rng, rng.below(16) if rng.chance(1, 3) else rng.range(5, 15))
+        if rng.chance(1, 6):
+            w = w[:rng.below(len(w) + 1)]
+        cases.append("wire " + hx(w))
     return cases
 
 
@@ -446,10 +706,23 @@ def gen_cases(rng, tier):
 # comparison
 # ---------------------------------------------------------------------------
 
+def _iter_toks(line):
+    """the tokens of the (last) fully printed iteration of a line"""
+    toks = line.split(" ; ")[-1].split()
+    for opener in ("hit[", "hsit["):
+        if opener in toks:
+            i = toks.index(opener)
+            j = toks.index("]", i) if "]" in toks[i:] else len(toks)
+            return toks[i + 1:j]
+    return toks
+
+
 def _classify(line):
-    if line.startswith("err"):
+    if line.startswith("err nes") or line.split(" ; ")[-1].startswith("err:"):
         return "reject(NotEnoughSpace)"
-    toks = line.split()
+    if line.startswith("hs=ERR"):
+        return "reject(header:%s)" % line.split()[0].split(":")[1]
+    toks = _iter_toks(line)
     items = [t for t in toks if "@" in t and not t.startswith(("end@", "last@"))]
     if items and items[-1].startswith("E:"):
         return "stop:" + items[-1].split(":")[1]
@@ -461,14 +734,15 @@ def _blur_error(line):
 
 
 def _nontrivial(line):
-    toks = line.split()
+    toks = _iter_toks(line)
     items = [t for t in toks if "@" in t and not t.startswith(("end@", "last@"))]
     return len(items) >= 2
 
 
 def compare(ctx, cases, impl, model_lines):
     corr, orc = [], []
-    hist = {"raw": 0, "hraw": 0, "els": 0, "len0-2": 0, "len3-12": 0, "len13-40": 0, "len>40": 0,
+    hist = {"raw": 0, "hraw": 0, "els": 0, "hdr": 0, "wire": 0, "hdr-ops": 0, "hdr-shrink": 0, "hdr-reject": 0,
+            "wire-doff<5": 0, "wire-doff5": 0, "wire-doff6-14": 0, "wire-doff15": 0, "wire-short": 0, "len0-2": 0, "len3-12": 0, "len13-40": 0, "len>40": 0,
             "items0": 0, "items1": 0, "items2-4": 0, "items>=5": 0}
     seen = set()
     nontriv = 0
@@ -478,6 +752,30 @@ def compare(ctx, cases, impl, model_lines):
         hist[parts[0]] += 1
         if parts[0] in ("raw", "hraw"):
             ln = 0 if parts[1] == "-" else len(parts[1]) // 2
+        elif parts[0] == "hdr":
+            ln, prev = 0, 0
+            for op in c.split(" / ")[1:]:
+                p = op.split()
+                n = (0 if p[1] == "-" else len(p[1]) // 2) if p[0] == "raw" else sum(_size(parse_el(t)) for t in p[1:])
+                hist["hdr-ops"] += 1
+                if n > 40:
+                    hist["hdr-reject"] += 1
+                else:
+                    if pad4(n) < prev:
+                        hist["hdr-shrink"] += 1
+                    prev = pad4(n)
+                ln = max(ln, n)
+        elif parts[0] == "wire":
+            bs = b"" if parts[1] == "-" else bytes.fromhex(parts[1])
+            if len(bs) < 20:
+                hist["wire-short"] += 1
+                ln = 0
+            else:
+                d = bs[12] >> 4
+                hist["wire-doff<5" if d < 5 else "wire-doff5" if d == 5 else "wire-doff15" if d == 15 else "wire-doff6-14"] += 1
+                if len(bs) < d * 4:
+                    hist["wire-short"] += 1
+                ln = max(0, d * 4 - 20)
         else:
             ln = sum(_size(parse_el(t)) for t in parts[1:])
         hist["len0-2" if ln <= 2 else "len3-12" if ln <= 12 else "len13-40" if ln <= 40 else "len>40"] += 1
@@ -493,7 +791,7 @@ def compare(ctx, cases, impl, model_lines):
             if prof == first_prof:
                 cls = _classify(il)
                 hist[cls] = hist.get(cls, 0) + 1
-                ni = len([t for t in il.split() if "@" in t and not t.startswith(("end@", "last@"))])
+                ni = len([t for t in _iter_toks(il) if "@" in t and not t.startswith(("end@", "last@"))])
                 hist["items0" if ni == 0 else "items1" if ni == 1 else "items2-4" if ni <= 4 else "items>=5"] += 1
                 if c not in seen:
                     seen.add(c)
@@ -511,7 +809,9 @@ def compare(ctx, cases, impl, model_lines):
                 orc.append((i, "%s: %s" % (prof, why), None))
     return {"corr_mismatch": corr, "oracle_fail": orc, "hist": hist, "nontrivial": nontriv,
             "exhaustive": False,
-            "extra": {"exhaustive_part": "all raw areas of length 0..2 (65793)"},
+            "extra": {"exhaustive_part": "all raw areas of length 0..2 (65793); length 3: all 256 first bytes x alphabet^2 "
+                                         "(12 letters quick, 64 letters thorough = 1048576); thorough: length 4 over 20 letters (160000); "
+                                         "header level: all 45 x 45 pairs of raw option lengths 0..44"},
             "samples": [cases[0], cases[70000 % len(cases)], cases[len(cases) // 2], cases[-1]]}
 
 
